@@ -71,12 +71,25 @@ def explicit(fd):
     return fd
 
 
-def minimise(ctx, mode, case_type, judge, j, code, keep=lambda fd: True, rounds=6):
+def lowest_name(fd):
+    cs = fd["enums"][0]["consts"]
+    return min(cs, key=lambda c: (int(c["val"]), c["name"]))["name"] if cs else None
+
+
+def keep_lowest(orig):
+    """candidates must keep the constant whose line names the traits (the least (value, name))"""
+    low = lowest_name(orig)
+    has_cells = any(c.get("cells") for c in orig["enums"][0]["consts"])
+    return lambda fd: (not has_cells) or lowest_name(fd) == low
+
+
+def minimise(ctx, mode, case_type, judge, j, code, keep=None, rounds=6):
     """delta-debugging on the constants of the failing enum: each round runs one farm batch with
     every candidate definition (one constant or one half removed) and keeps the smallest one
     that is still judged with the same code inside Coq"""
     try:
         cur = explicit(single_enum_file(j))
+        keep = keep or keep_lowest(cur)
         terms, jsons, err = run_farm(ctx, mode, defs=[cur], tag="min")
         if err or not terms:
             return j
